@@ -1,0 +1,9 @@
+//go:build !verif
+
+package internal
+
+const verifOn = false
+
+func verifAt(point int, a, b, c any, n ...int64) {}
+
+func verifB(b bool) int64 { return 0 }
